@@ -13,6 +13,7 @@ INV_PROP = {'OneProposalPerView': 'C03', 'OneResponsePerView': 'C03', 'OneCommit
             'PhaseOrder': 'C07', 'AmevOff': 'C07', 'TimerOK': 'C10', 'Silent': 'C13', 'HeldTxsBelong': 'C11', 'PrimaryOK': 'C06',
             'PreCertificate': 'C02', 'Certificate': 'C02', 'ResetClean': 'C05', 'EarlyUsed': 'C05',
             'MinGap': 'C16', 'EmptyAfterMax': 'C16', 'ExactGapWhenOff': 'C16', 'NotLate': 'C16', 'Prompt': 'C16', 'SubscribeOnlyIfOn': 'C16',
+            'Termination': 'C09', 'ViewBound': 'C09', 'TimersArmed': 'C10',
             'NeverAsks': 'C08', 'View0': 'C08', 'Decides': 'C08', 'TheBlock': 'C08'}
 
 def node_cfg(name, me=1, h=2, maxview=1, amev=False, watch=False, dyn=False, family=('core',), dev=True, weaken=(), invs=None, n=4,
@@ -90,13 +91,31 @@ def dyn_cfg(name, dyn=True, amev=False, heights=3):
 # C16 at design level: a single-validator network against a clock (spec/MC_Dyn.tla)
 DYN_FAMILIES = [dyn_cfg('dyn-on'), dyn_cfg('dyn-off', dyn=False), dyn_cfg('dyn-on-amev', amev=True), dyn_cfg('dyn-on-long', heights=5)]
 
+def live_cfg(name, n=4, silent=(2,), cutsets=(), heal=0, amev=False, maxview=3):
+    b = lambda v: 'TRUE' if v else 'FALSE'
+    st = lambda xs: '{' + ', '.join(str(x) for x in xs) + '}'
+    txt = ('SPECIFICATION Spec\nCONSTANTS\n  N = %d\n  H = 2\n  Silent = %s\n  CutSets = {%s}\n  HealAfter = %d\n  AmevOn = %s\n  MaxView = %d\n  Emit = FALSE\n  CoverMod = 1\n'
+           'CONSTRAINT Bound\nINVARIANTS Agreement ViewBound TimersArmed\nPROPERTY Termination\nCHECK_DEADLOCK FALSE\n'
+           % (n, st(silent), ', '.join(st(c) for c in cutsets), heal, b(amev), maxview))
+    return dict(name=name, module='MC_Live', cfg=txt)
+
+# C09 at design level: closed synchronous composition with silent / cut-off validators, liveness under fairness (spec/MC_Live.tla)
+LIVE_FAMILIES = [live_cfg('live-silent-primary', silent=(2,)), live_cfg('live-silent-backup', silent=(1,)),
+                 live_cfg('live-silent-primary-amev', silent=(2,), amev=True),
+                 live_cfg('live-silent-primary-cut1', silent=(2,), cutsets=((1,),), heal=2, maxview=4),
+                 live_cfg('live-silent-primary-cutany', silent=(2,), cutsets=((1,), (3,), (0,)), heal=1, maxview=4),
+                 live_cfg('live-n7-silent1', n=7, silent=(2,), maxview=2)]
+
 def run_tlc(item, wd, workers=4, cap=1800, simulate=None, cover=0):
     sd = os.path.join(wd, 'mc-' + item['name']); os.makedirs(sd, exist_ok=True)
-    for f in ('DbftNode.tla', item['module'] + '.tla'):
+    for f in ['DbftNode.tla', item['module'] + '.tla'] + (['MC_Node.tla'] if item['module'] == 'MC_NodeCover' else []):
         shutil.copy(os.path.join(vlib.VERIF, 'spec', f), sd)
     cfg = item['cfg'] if (simulate and not simulate.get('dump')) else item['cfg'].replace('Emit = FALSE', 'Emit = TRUE')   # carry the schedule (hidden by VIEW)
+    if cover and item['module'] == 'MC_Live':
+        cfg = cfg.replace('PROPERTY Termination\n', 'VIEW View\n')     # the schedule must not split states; no temporal property in this run
     if cover:   # print the stored schedule of every state (EmitCover)
-        cfg = cfg.replace('INVARIANTS ', 'INVARIANTS EmitCover ') if 'INVARIANTS ' in cfg else cfg + 'INVARIANTS EmitCover\n'
+        inv = 'EmitCover2' if item['module'] == 'MC_NodeCover' else 'EmitCover'
+        cfg = cfg.replace('INVARIANTS ', 'INVARIANTS %s ' % inv) if 'INVARIANTS ' in cfg else cfg + 'INVARIANTS %s\n' % inv
         cfg = cfg.replace('CoverMod = 1', 'CoverMod = %d' % cover)
     open(os.path.join(sd, 'mc.cfg'), 'w').write(cfg)
     cex = os.path.join(sd, 'cex.json')
@@ -124,6 +143,8 @@ def run_tlc(item, wd, workers=4, cap=1800, simulate=None, cover=0):
     if dm:
         res['depth'] = int(dm.group(1))
     v = re.search(r'Invariant (\w+) is violated', out) or re.search(r'Action property (\w+) is violated', out)
+    if not v and 'Temporal properties were violated' in out:
+        v = re.match(r'(Termination)', 'Termination')
     if v:
         res['violated'] = v.group(1)
         res['trace_actions'] = len(re.findall(r'^State \d+:', out, re.M))
@@ -142,26 +163,49 @@ def run_tlc(item, wd, workers=4, cap=1800, simulate=None, cover=0):
     return res
 
 def cover_behaviours(item, wd, out_file, cap=1500, mod=1):
-    """State cover (spec -> code): breadth-first exploration of an MC_Node configuration; every distinct state is printed with
-    the schedule that reached it; the leaves of the resulting prefix tree are written as behaviours for the script driver."""
+    """State cover (spec -> code): breadth-first exploration of a configuration; every distinct state is printed with the
+    schedule that reached it; the leaves of the resulting prefix tree are written as behaviours for the script driver. MC_Node
+    configurations are explored through MC_NodeCover, which also prints, per state, the calls that are no-ops there (probes):
+    they are inserted into the schedules at that state, once per state."""
+    if item['module'] == 'MC_Node':
+        item = dict(item, module='MC_NodeCover')
     r = run_tlc(item, wd, workers=1, cap=cap, cover=mod)
-    uniq, parents = {}, set()
+    uniq, parents, probes = {}, set(), {}
     for ln in r['stdout'].splitlines():
-        if ln.startswith('<<"COVER", "'):
-            try:
+        try:
+            if ln.startswith('<<"COVER", "'):
                 evs = json.loads(json.loads(ln.strip()[len('<<"COVER", '):-2]))
-            except Exception:
-                continue     # a line torn by concurrent output
-            k = json.dumps(evs, sort_keys=True)
-            uniq[k] = evs
-            parents.add(json.dumps(evs[:-1], sort_keys=True))
+                pr = None
+            elif ln.startswith('<<"COVER2", "'):
+                a, b, c = json.loads('[' + ln.strip()[len('<<"COVER2", '):-2] + ']')
+                evs, pr = json.loads(a), (json.loads(b), json.loads(c))
+            else:
+                continue
+        except Exception:
+            continue     # a line torn by concurrent output
+        k = json.dumps(evs, sort_keys=True)
+        uniq[k] = evs
+        parents.add(json.dumps(evs[:-1], sort_keys=True))
+        if pr and pr[0]:
+            probes[k] = pr
     leaves = [s for k, s in uniq.items() if k not in parents]
     leaves.sort(key=lambda s: json.dumps(s, sort_keys=True))
+    probed, nprobe = set(), 0
     with open(out_file, 'w') as o:
         for s in leaves:
-            o.write(json.dumps(s) + '\n')
+            out = []
+            for i, e in enumerate(s):
+                out.append(e)
+                k = json.dumps(s[:i + 1], sort_keys=True)
+                if k in probes and k not in probed:
+                    probed.add(k)
+                    calls, penv = probes[k]
+                    calls.sort(key=lambda c: json.dumps(c, sort_keys=True))
+                    for c in calls:
+                        out.append({'call': c['call'], 'arg': c['arg'], 'env': penv}); nprobe += 1
+            o.write(json.dumps(out) + '\n')
     r.pop('stdout', None)
-    r.update(schedules_printed=len(uniq), leaves=len(leaves), events=sum(len(s) for s in leaves))
+    r.update(schedules_printed=len(uniq), leaves=len(leaves), events=sum(len(s) for s in leaves), probes=nprobe, states_probed=len(probed))
     return r
 
 def net_cfg(name, byz=(2,), h=2, maxview=1, amev=False, dev=True, weaken=(), invs=('Agreement',), n=4, maxsteps=60):
@@ -205,7 +249,7 @@ def item_key(item, extra=''):
     module texts and the configuration: they are stored under this key (committed in generated/, else .cache/generated/)."""
     import hashlib
     h = hashlib.sha256()
-    for f in ('DbftNode.tla', item['module'] + '.tla'):
+    for f in ['DbftNode.tla', item['module'] + '.tla'] + (['MC_Node.tla'] if item['module'] == 'MC_NodeCover' else []):
         h.update(open(os.path.join(vlib.VERIF, 'spec', f), 'rb').read())
     h.update(item['cfg'].encode()); h.update(extra.encode())
     return h.hexdigest()[:16]
@@ -225,6 +269,8 @@ def gen_store_path(fname):
 def cover_file(item, wd, cap=3000, mod=1):
     """Path of the (gzip) behaviours file of the state cover of `item`, computing it if the specification changed."""
     import gzip
+    if item['module'] == 'MC_Node':
+        item = dict(item, module='MC_NodeCover')
     fname = 'cover-%s-%s.ndjson.gz' % (item['name'], item_key(item, 'cover%s' % mod))
     p = gen_lookup(fname)
     meta = None
@@ -267,6 +313,8 @@ def design(tier, wd, vh=None, names=None, module='MC_Node'):
         items = [('fresh', i) for i in SYNC_FAMILIES]
     elif module == 'MC_Dyn':
         items = [('fresh', i) for i in DYN_FAMILIES]
+    elif module == 'MC_Live':
+        items = [('fresh', i) for i in LIVE_FAMILIES]
     else:
         items = [('fresh', i) for i in NODE_FAMILIES['quick']] + [('cached', i) for i in NODE_FAMILIES['cached']]
         if tier != 'quick':
